@@ -47,6 +47,12 @@ func GenStore(seed uint64, prop string, idx int) *StoreSpec {
 	if prop == "C13" && idx%4 == 3 && np > 0 {
 		return genStoreConc(spec, r)
 	}
+	// hand-made ids: one child object of a plan carries the id of an object of another plan
+	if (prop == "C14" || prop == "C13") && np >= 2 && r.Bool(0.25) {
+		i := 1 + r.Intn(np-1)
+		spec.Plans[i].Steal = 1 + r.Intn(i)
+		spec.Plans[i].StealKind = Pick(r, []string{"action", "action", "seq", "block", "checks"})
+	}
 	// C14: unserialisable requests at a random position of some plans
 	if prop == "C14" {
 		for i := range spec.Plans {
